@@ -13,7 +13,7 @@ same (pre-state, call tree).
   blset n x* | blblock x | blunblock x | blstale x y     -> bl <n> <account>*               Policy's blocked-accounts cache, in its order
 Tree tokens: [ nodes ] ; P k v ; D k ; N e ; NN e n ; Q k [..] ; C c fl [..] ; I [..] ;
   T [body] hasC [cat] hasF [fin] ; X ; A ; G tok to amt fl hasCb [cb] ; F v fl ; B a fl tag ; U a fl ; Y d fl ;
-  M nefV fl ; Z fl tag ; KR fl ; KU w fl ; OR u fl ; OF fl ; NL till fl ; NW to fl ; R role v fl ; W c fee fl ; V c fl ; E to amt fl tag hasCb [cb] ; O on fl tag   (txg | tree: out-of-gas transaction)
+  M nefV fl ; Z fl tag ; KR fl ; KU w fl ; OR u fl ; OF fl ; NL till fl ; NW to fl ; GP v fl ; R role v fl ; W c fee fl ; V c fl ; E to amt fl tag hasCb [cb] ; O on fl tag   (txg | tree: out-of-gas transaction)
 -/
 import NeoModel.Base.Proto
 import NeoModel.Model.Exec
@@ -118,6 +118,8 @@ mutual
       some (.native false (.oracleReq (← u.toNat?)) (Flags.ofNat (← fl.toNat?)) .skip .skip, r)
     | "OF" :: fl :: r => do
       some (.native false .oracleFinish (Flags.ofNat (← fl.toNat?)) .skip .skip, r)
+    | "GP" :: v :: fl :: r => do
+      some (.native false (.setGas (← v.toNat?)) (Flags.ofNat (← fl.toNat?)) .skip .skip, r)
     | "NL" :: till :: fl :: r => do
       some (.native false (.lock (← till.toNat?)) (Flags.ofNat (← fl.toNat?)) .skip .skip, r)
     | "NW" :: to :: fl :: r => do
